@@ -4394,7 +4394,7 @@ class Parameters:
 
             # Suppresses automatically generated names.
             if k == 'name' and (values[k] is not None
-                                and re.match('^'+self.__class__.__name__+'[0-9]+$', values[k])):
+                                and _is_auto_name(self.__class__.__name__, values[k])):
                 continue
 
             value = pprint(values[k], imports, prefix=prefix,settings=[],
